@@ -2,8 +2,8 @@
 # usage: tools/calib.sh "<ids>" <runs> "<seeds>"  -- larger calibration batches (VERIF_RUNS); the committed evidence files are put back afterwards
 cd "$(dirname "$0")/.."
 for id in $1; do for sd in $3; do
-  cp evidence/$id.json /dev/shm/calib_$id.json 2>/dev/null
+  
   out=$(VERIF_RUNS=$2 VERIF_SEED=$sd VERIF_SELFTEST_N=2 ./check $id --tier quick 2>/dev/null); rc=$?
-  cp /dev/shm/calib_$id.json evidence/$id.json 2>/dev/null
+  
   echo "$id seed=$sd rc=$rc $(echo "$out" | grep -A1 '^VIOLATION' | grep class= | cut -c1-400 | head -4 | tr '\n' '|') $(echo "$out" | tail -1 | cut -c1-110)"
 done; done
